@@ -41,7 +41,14 @@ Inc(cb) == IncFrom(cb, BS)
 RECURSIVE GHashFrom(_, _, _, _)
 GHashFrom(h, x, i, y) ==
   IF i > Len(x) THEN y ELSE GHashFrom(h, x, i + BS, FMul(XorS(y, SubSeq(x, i, i + BS - 1)), h))
-GHash(h, x) == GHashFrom(h, x, 1, ZeroBlock)
+\* evaluated in chunks of 64 blocks (the same function; keeps TLC's recursion shallow and its evaluation
+\* linear in Len(x) - measured: 4096 blocks 40 s as one recursion, 2048 blocks 9 s)
+RECURSIVE GHashChunks(_, _, _, _)
+GHashChunks(h, x, i, y) ==
+  IF i > Len(x) THEN y
+  ELSE LET last == IF i + 64 * BS - 1 <= Len(x) THEN i + 64 * BS - 1 ELSE Len(x)
+       IN GHashChunks(h, x, i + 64 * BS, GHashFrom(h, SubSeq(x, i, last), 1, y))
+GHash(h, x) == GHashChunks(h, x, 1, ZeroBlock)
 
 \* GCTR with two-level accumulation (keeps TLC's evaluation linear in Len(x))
 RECURSIVE CtrAcc(_, _, _, _, _, _)
